@@ -2,6 +2,91 @@ import BiotiteModel.Proofs.C04Compose
 /-! `get_structure`: model selection (`model=None`, positive and negative indices) on a written block. -/
 namespace BiotiteModel.C04
 
+/-! ### a model = the rows with its number -/
+
+theorem blocksOk_not_seen : ∀ (bs : List (List SiteRow)) (seen : List Int), BlocksOk seen bs →
+    ∀ x ∈ bs.flatten, x.model ∉ seen := by
+  intro bs
+  induction bs with
+  | nil => intro seen _ x hx; simp at hx
+  | cons b rest ih =>
+    intro seen hok x hx
+    obtain ⟨v, _, hv, hns, hrest⟩ := hok
+    simp only [List.flatten_cons, List.mem_append] at hx
+    rcases hx with hx | hx
+    · rw [hv x hx]; exact hns
+    · have := ih (v :: seen) hrest x hx
+      intro hm; exact this (by simp [hm])
+
+theorem filter_blocks : ∀ (bs : List (List SiteRow)) (seen : List Int), BlocksOk seen bs →
+    ∀ (k : Nat) (r : SiteRow) (g : List SiteRow), bs[k]? = some (r :: g) →
+    bs.flatten.filter (fun x => x.model == r.model) = r :: g := by
+  intro bs
+  induction bs with
+  | nil => intro seen _ k r g h; simp at h
+  | cons b rest ih =>
+    intro seen hok k r g h
+    obtain ⟨v, _, hv, _, hrest⟩ := hok
+    cases k with
+    | zero =>
+      simp only [List.getElem?_cons_zero, Option.some.injEq] at h
+      subst h
+      have hrv : r.model = v := hv r (by simp)
+      have h1 : (r :: g).filter (fun x => x.model == r.model) = r :: g := by
+        rw [List.filter_eq_self]
+        intro x hx; simp [hv x hx, hrv]
+      have h2 : rest.flatten.filter (fun x => x.model == r.model) = [] := by
+        rw [List.filter_eq_nil_iff]
+        intro x hx
+        have := blocksOk_not_seen rest (v :: seen) hrest x hx
+        simp only [beq_iff_eq]
+        intro e; apply this; rw [e, hrv]; simp
+      simp only [List.flatten_cons, List.filter_append, h1, h2, List.append_nil]
+    | succ k =>
+      simp only [List.getElem?_cons_succ] at h
+      have hr : r ∈ rest.flatten := List.mem_flatten.mpr ⟨r :: g, List.mem_of_getElem? h, by simp⟩
+      have hne : r.model ≠ v := by
+        have := blocksOk_not_seen rest (v :: seen) hrest r hr
+        intro e; apply this; simp [e]
+      have h1 : b.filter (fun x => x.model == r.model) = [] := by
+        rw [List.filter_eq_nil_iff]
+        intro x hx
+        simp only [beq_iff_eq]
+        rw [hv x hx]; exact fun e => hne e.symm
+      simp only [List.flatten_cons, List.filter_append, h1, List.nil_append]
+      exact ih (v :: seen) hrest k r g h
+
+/-- On a table made of blocks, the k-th model is the k-th block. -/
+theorem select_blocks (bs : List (List SiteRow)) (hok : BlocksOk [] bs) (k : Nat) (g : List SiteRow)
+    (hg : bs[k]? = some g) : selectModel bs.flatten k = g := by
+  unfold selectModel modelNumbers
+  rw [split_blocks bs hok, List.getElem?_map, hg]
+  cases g with
+  | nil =>
+    -- blocks are never empty
+    exfalso
+    have : ([] : List SiteRow) ∈ bs := List.mem_of_getElem? hg
+    clear hg
+    induction bs generalizing k with
+    | nil => simp at this
+    | cons b rest ih => exact absurd this (by
+        intro hm
+        have key : ∀ (l : List (List SiteRow)) (seen : List Int), BlocksOk seen l → ([] : List SiteRow) ∉ l := by
+          intro l
+          induction l with
+          | nil => intro _ _ h; simp at h
+          | cons x xs ihx =>
+            intro seen hk h
+            obtain ⟨v, hne, _, _, hr⟩ := hk
+            simp only [List.mem_cons] at h
+            rcases h with h | h
+            · exact hne h.symm
+            · exact ihx (v :: seen) hr h
+        exact key _ _ hok hm)
+  | cons r g' =>
+    simp only [Option.map_some, List.head?_cons]
+    exact filter_blocks bs [] hok k r g' hg
+
 /-- The 1-based model index `get_structure` computes from `model` (negative = from the end). -/
 def normModel (count : Nat) (m : Int) : Int := if m < 0 then (count : Int) + m + 1 else m
 
@@ -9,8 +94,8 @@ theorem readStructure_model (ccd : Ccd) (b : Block) (hc hi : Bool) (m : Int) (hm
     (h1 : 1 ≤ normModel (distinctCount (b.site.map (·.model))) m)
     (h2 : normModel (distinctCount (b.site.map (·.model))) m ≤ (distinctCount (b.site.map (·.model)) : Int)) :
     readStructure ccd b ⟨some m, .first, true, hc, hi⟩ =
-      readCore ccd ((splitModels b.site).getD ((normModel (distinctCount (b.site.map (·.model))) m).toNat - 1) [])
-        [((splitModels b.site).getD ((normModel (distinctCount (b.site.map (·.model))) m).toNat - 1) []).map (·.xyz)]
+      readCore ccd (selectModel b.site ((normModel (distinctCount (b.site.map (·.model))) m).toNat - 1))
+        [(selectModel b.site ((normModel (distinctCount (b.site.map (·.model))) m).toNat - 1)).map (·.xyz)]
         b.conn b.ccb b.cell hc hi := by
   have hm0 : (m == 0) = false := by simpa using hm
   unfold normModel at h1 h2 ⊢
@@ -47,32 +132,44 @@ theorem readStructure_model_rejected (ccd : Ccd) (b : Block) (o : ReadOpts) (m :
     rfl
 
 theorem readStructure_all (ccd : Ccd) (b : Block) (hc hi : Bool)
-    (heq : ∀ g ∈ splitModels b.site, g.length = ((splitModels b.site).headD []).length) :
+    (heq : ∀ g ∈ splitModels b.site, g.length = (selectModel b.site 0).length)
+    (hconst : ∀ g ∈ splitModels b.site, ∀ r ∈ g, some r.model = g.head?.map (·.model)) :
     readStructure ccd b ⟨none, .first, true, hc, hi⟩ =
-      readCore ccd ((splitModels b.site).headD [])
-        (chunks ((splitModels b.site).headD []).length (distinctCount (b.site.map (·.model))) (b.site.map (·.xyz)))
+      readCore ccd (selectModel b.site 0)
+        (chunks (selectModel b.site 0).length (distinctCount (b.site.map (·.model))) (b.site.map (·.xyz)))
         b.conn b.ccb b.cell hc hi := by
-  have hany : (splitModels b.site).any (fun g => g.length != ((splitModels b.site).headD []).length) = false := by
+  have hany : (splitModels b.site).any (fun g => g.length != (selectModel b.site 0).length) = false := by
     rw [List.any_eq_false]
     intro g hg
     simpa using heq g hg
+  have hany2 : (splitModels b.site).any (fun g => g.any (fun r => some r.model != g.head?.map (·.model))) = false := by
+    rw [List.any_eq_false]
+    intro g hg
+    rw [Bool.not_eq_true, List.any_eq_false]
+    intro r hr
+    simpa using hconst g hg r hr
   unfold readStructure readCore
-  simp only [bind, Except.bind, pure, Except.pure, hany, Bool.false_eq_true, if_false]
+  simp only [bind, Except.bind, pure, Except.pure, hany, hany2, Bool.or_self, Bool.false_eq_true, if_false]
   cases b.conn with
   | none => simp
   | some c =>
     simp only []
     cases parseInter _ c <;> simp [Except.map]
 
-/-- **Unequal model lengths are rejected** (repaired check): if some model has another length than
-the first one, `get_structure(model=None)` raises `InvalidFileError`, whatever the total is. -/
+/-- **Unequal model lengths and interleaved models are rejected** (repaired check): if some group has
+another length than the first model, or a group contains rows of another model, `get_structure(model=None)`
+raises `InvalidFileError`, whatever the total is. -/
 theorem readStructure_unequal (ccd : Ccd) (b : Block) (o : ReadOpts) (hom : o.model = none)
-    (h : ∃ g ∈ splitModels b.site, g.length ≠ ((splitModels b.site).headD []).length) :
+    (h : (∃ g ∈ splitModels b.site, g.length ≠ (selectModel b.site 0).length) ∨
+         (∃ g ∈ splitModels b.site, ∃ r ∈ g, some r.model ≠ g.head?.map (·.model))) :
     readStructure ccd b o = .error .invalidFile := by
-  have hany : (splitModels b.site).any (fun g => g.length != ((splitModels b.site).headD []).length) = true := by
-    rw [List.any_eq_true]
-    obtain ⟨g, hg, hne⟩ := h
-    exact ⟨g, hg, by simpa using hne⟩
+  have hany : ((splitModels b.site).any (fun g => g.length != (selectModel b.site 0).length) ||
+      (splitModels b.site).any (fun g => g.any (fun r => some r.model != g.head?.map (·.model)))) = true := by
+    rw [Bool.or_eq_true]
+    rcases h with ⟨g, hg, hne⟩ | ⟨g, hg, r, hr, hne⟩
+    · left; rw [List.any_eq_true]; exact ⟨g, hg, by simpa using hne⟩
+    · right; rw [List.any_eq_true]; refine ⟨g, hg, ?_⟩
+      rw [List.any_eq_true]; exact ⟨r, hr, by simpa using hne⟩
   unfold readStructure
   simp only [hom, bind, Except.bind, pure, Except.pure, hany, if_true]
   rfl
@@ -150,17 +247,48 @@ theorem stack_roundtrip (ccd : Ccd) (s : Structure) (bs : List Bond) (w : WFS cc
       cases hcs : s.coords with
       | nil => exact absurd hcs w.coords_ne
       | cons c0 cs => exact ⟨c0, cs, rfl⟩
-    have hhead : (splitModels (writeSite s)).headD [] = modelBlock s.hasAtomId 1 0 (writeRows s) c0 := by
-      rw [hgroups, hcoords]; simp [modelBlocks]
+    have hblocks : BlocksOk [] (modelBlocks s.hasAtomId (writeRows s) 0 s.coords) := by
+      have hrows : writeRows s ≠ [] := by
+        intro h
+        have := writeRows_length s
+        rw [h] at this
+        exact w.atoms_ne (List.length_eq_zero_iff.mp this.symm)
+      exact blocksOk_modelBlocks _ _ hrows _ (by
+        intro c hc h
+        have := w.coords_len c hc
+        rw [h] at this
+        exact w.atoms_ne (List.length_eq_zero_iff.mp this.symm)) 0 [] (by simp)
+    have hhead : selectModel (writeSite s) 0 = modelBlock s.hasAtomId 1 0 (writeRows s) c0 := by
+      unfold writeSite
+      apply select_blocks _ hblocks 0
+      rw [hcoords]; simp [modelBlocks]
     have hc0 : c0.length = s.atoms.length := w.coords_len c0 (by rw [hcoords]; simp)
-    have hheadlen : ((splitModels (writeSite s)).headD []).length = s.atoms.length := by
+    have hheadlen : (selectModel (writeSite s) 0).length = s.atoms.length := by
       rw [hhead, modelBlock_length' _ _ _ _ _ (by rw [hc0, writeRows_length]), writeRows_length]
     rw [readStructure_all ccd ⟨writeSite s, conn, ccb, s.box⟩ _ _ (by
       intro g hg
       rw [hheadlen]
       rw [hgroups] at hg
-      rw [hlen g hg, writeRows_length])]
-    have hchunks : chunks ((splitModels (writeSite s)).headD []).length (distinctCount ((writeSite s).map (·.model)))
+      rw [hlen g hg, writeRows_length]) (by
+      intro g hg r hr
+      rw [hgroups] at hg
+      obtain ⟨k, hk⟩ := List.getElem?_of_mem hg
+      rw [modelBlocks_getElem?] at hk
+      cases hck : s.coords[k]? with
+      | none => rw [hck] at hk; simp at hk
+      | some c =>
+        rw [hck] at hk
+        simp only [Option.map_some, Option.some.injEq] at hk
+        subst hk
+        have hm := modelBlock_model s.hasAtomId (((0 + k : Nat) : Int) + 1) (writeRows s) c ((0 + k) * (writeRows s).length)
+        cases hgl : modelBlock s.hasAtomId (((0 + k : Nat) : Int) + 1) ((0 + k) * (writeRows s).length) (writeRows s) c with
+        | nil => rw [hgl] at hr; simp at hr
+        | cons r0 rest =>
+          rw [hgl] at hr
+          have h1 := hm r (by rw [hgl]; exact hr)
+          have h2 := hm r0 (by rw [hgl]; simp)
+          simp [h1, h2])]
+    have hchunks : chunks (selectModel (writeSite s) 0).length (distinctCount ((writeSite s).map (·.model)))
         ((writeSite s).map (·.xyz)) = s.coords := by
       rw [hheadlen, hcnt]
       have : (writeSite s).map (·.xyz) = s.coords.flatten := by
@@ -187,11 +315,22 @@ theorem stack_roundtrip (ccd : Ccd) (s : Structure) (bs : List Bond) (w : WFS cc
     simp only [hnorm]
     have hidx : ((k : Int) + 1).toNat - 1 = k := by omega
     rw [hidx]
-    have hg : (splitModels (writeSite s)).getD k [] =
+    have hblocks : BlocksOk [] (modelBlocks s.hasAtomId (writeRows s) 0 s.coords) := by
+      have hrows : writeRows s ≠ [] := by
+        intro h
+        have := writeRows_length s
+        rw [h] at this
+        exact w.atoms_ne (List.length_eq_zero_iff.mp this.symm)
+      exact blocksOk_modelBlocks _ _ hrows _ (by
+        intro c hc h
+        have := w.coords_len c hc
+        rw [h] at this
+        exact w.atoms_ne (List.length_eq_zero_iff.mp this.symm)) 0 [] (by simp)
+    have hg : selectModel (writeSite s) k =
         modelBlock s.hasAtomId ((k : Int) + 1) (k * (writeRows s).length) (writeRows s) s.coords[k] := by
-      rw [hgroups]
-      simp only [List.getD, modelBlocks_getElem?, List.getElem?_eq_getElem hk, Option.map_some, Option.getD_some,
-        Nat.zero_add]
+      unfold writeSite
+      apply select_blocks _ hblocks k
+      simp only [modelBlocks_getElem?, List.getElem?_eq_getElem hk, Option.map_some, Nat.zero_add]
     have hck : s.coords[k].length = s.atoms.length := w.coords_len _ (List.getElem_mem hk)
     rw [hg, modelBlock_xyz _ _ _ _ _ (by rw [hck, writeRows_length])]
     exact hcore _ _ _ [s.coords[k]] hck (by intro x hx; simp at hx; rw [hx]; exact hck)
